@@ -70,7 +70,7 @@ def run_case(case, ctx):
         labels.append(op["m"])
     labels.append("file:" + str(fam))
     labels.append("irregular" if (not T.is_2d and not T.structured) else ("2d" if T.is_2d else "regular"))
-    return {"sig": sigs, "labels": labels}
+    return {"sigs": sigs, "labels": labels}
 
 
 def shard_main(ctx):
